@@ -104,6 +104,9 @@ def judge(sim, g, targets, res, phony_err=False, disc=None, model=None, files_be
     cyc = find_cycle(g, targets, disc, phony_filter=not phony_err)
     starts = [ev['edge'] for ev in res['trace'] if ev['ev'] == 'start']
     reported = 'dependency cycle' in (res.get('err') or '')
+    if 'stuck' in (res.get('err') or '') and res.get('status') == 0:
+        # whatever made the plan deadlock (the known visit-order finding does), giving up must not pass for success
+        return ("a build that cannot make progress ('stuck') reports success: targets %s" % targets, None)
     if cyc and not reported:
         # known finding D1: a cycle closed only by discovered inputs of a statement that is dirty for its own reasons
         if model is not None and find_cycle(g, targets, {}, phony_filter=not phony_err) is None:
